@@ -261,6 +261,14 @@ def r1(ctx):
     max_len = 3 if ctx.tier == "thorough" else 2
     n = 0
     bad = {"termination": [], "outcome-reportable": [], "protocol": [], "declined-changes-nothing": [], "outcome-threaded": []}
+    defaults = {"default", "default()"}
+    try:
+        dp = "<sync::SyncOutcome as std::default::Default>::default"
+        if dp in f.bodies:
+            from . import feval as _E
+            defaults.add(_E.describe(_E.run(f, dp, [], {})[0], f))
+    except Exception:
+        pass
     for frames in _scripts(max_len):
         for accept in ("Allow", "Reject"):
             for proc in PROCS:
@@ -280,6 +288,8 @@ def r1(ctx):
                     nproc = len([e for e in log if e[0] == "process"])
                     failed_step = nproc > 0 and nproc <= len(proc) and proc[nproc - 1] == "err"
                     want_io = "default" if failed_step else "progress%d" % nproc
+                    if failed_step and io in defaults:
+                        io = "default"      # Option::unwrap_or_default, SyncOutcome::default() and Default::default() are the same value
                     if io is not None and not io.startswith("UNSUPPORTED") and io != "PANIC" and io != want_io:
                         bad["outcome-threaded"].append("%s: run returned %s; into_outcome reports %s, the session's last progress is %s" % (tag, res, io, want_io))
                     wres, wev = ref_bob(frames, accept, proc, send_ok)
